@@ -27,5 +27,5 @@ StatsOK == total = adds /\ most >= rows /\ most <= total /\ (adds > 0 => most >=
 Inv == NoPanic /\ SelectionShown /\ StatsOK
 \* view actions never touch the data (C18)
 ViewOnly == [][(phase = "events" /\ phase' = "events") => (rows' = rows /\ det' = det /\ total' = total /\ most' = most)]_vars
-Replay == (PrintReplay /\ (steps = MaxSteps \/ s.quit \/ s.panicked)) => PrintT(<<"REPLAY", hist>>)
+Replay == (PrintReplay /\ (steps = MaxSteps \/ s.quit \/ s.panicked)) => PrintT(<<"REPLAY", hist, "SIGS", sigs>>)
 =============================================================================
